@@ -1,4 +1,7 @@
 import Imdlv.Lemmas.HostIpv4
+import Imdlv.Lemmas.HostIpv6
+import Imdlv.Lemmas.HostDomain
+import Imdlv.Lemmas.HostOk
 import Imdlv.Model.HostPort
 /-!
 # C17 — host:port values survive every representation
@@ -193,6 +196,108 @@ theorem ipv4_bencode_roundtrip (n p : Nat) (hn : n < 2 ^ 32) :
   have : (hostShowPair (.ipv4 n)).contains ':' = false := (showIpv4_clean n).2
   rw [this]
   exact hostParseC_showIpv4 n hn
+
+/-! ## IPv6 hosts, end to end: any eight 16-bit groups, both printers -/
+
+/-- **Every IPv6 address and port survive `HOST:PORT`**: url's compressed lower-hex text in brackets
+parses back to the identical eight groups — the elided run is zeros only, the printed `::` is the
+only double colon, and every hex group reads back as its value -/
+theorem ipv6_display_parse (segs : List Nat) (p : Nat) (hl : segs.length = 8) (hs : ∀ x ∈ segs, x < 65536)
+    (hp : p < 65536) :
+    parse hostParseOpt (display hostShowUrl (.ipv6 segs, p)) = .ok (.ipv6 segs, p) := by
+  apply display_parse hostParseOpt hostShowUrl (.ipv6 segs) p hp (hostParseC_showIpv6Url segs hl hs)
+  show (['['] ++ showIpv6Plain segs ++ [']']).contains '\n' = false
+  have := showIpv6Plain_clean segs hs
+  cases h : (['['] ++ showIpv6Plain segs ++ [']']).contains '\n' with
+  | false => rfl
+  | true =>
+    have hm := List.contains_iff_mem.mp h
+    simp only [List.mem_append, List.mem_singleton] at hm
+    rcases hm with (hm | hm) | hm
+    · cases hm
+    · rw [List.contains_iff_mem.mpr hm] at this; cases this
+    · cases hm
+
+/-- … and the stored `[host, port]` pair: std's text (with the dotted tail of IPv4-mapped
+addresses) always contains a colon, so the reader brackets it again, and it parses back -/
+theorem ipv6_bencode_roundtrip (segs : List Nat) (p : Nat) (hl : segs.length = 8) (hs : ∀ x ∈ segs, x < 65536) :
+    ofPair hostParseOpt (toPair hostShowPair (.ipv6 segs, p)) = some (.ipv6 segs, p) := by
+  apply bencode_roundtrip
+  obtain ⟨h1, h2⟩ := hostParseC_showIpv6Std segs hl hs
+  show hostParseOpt (if (showIpv6Std segs).contains ':' then ['['] ++ showIpv6Std segs ++ [']'] else showIpv6Std segs) = _
+  rw [h1]
+  exact h2
+
+/-! ## Domains, end to end -/
+
+/-- the host parser returns only well-formed domains (lower-case letters, digits, `-`, `.`;
+no `xn--` label; not ending in a number) … -/
+theorem parsed_domain_ok (s d : List Char) (h : hostParseOpt s = some (.domain d)) : DomainOk d := by
+  unfold hostParseOpt at h
+  split at h
+  · rename_i hh heq
+    injection h with h
+    subst h
+    exact hostParseC_domain_ok s d heq
+  · cases h
+
+/-- **… and every such domain with any port survives `HOST:PORT` and the stored pair** -/
+theorem domain_display_parse (d : List Char) (p : Nat) (hd : DomainOk d) (hp : p < 65536) :
+    parse hostParseOpt (display hostShowUrl (.domain d, p)) = .ok (.domain d, p) := by
+  apply display_parse hostParseOpt hostShowUrl (.domain d) p hp
+  · show hostParseOpt d = _
+    unfold hostParseOpt
+    rw [hostParseC_domain_fixed d hd]
+  · exact (domainOk_clean d hd).1
+
+theorem domain_bencode_roundtrip (d : List Char) (p : Nat) (hd : DomainOk d) :
+    ofPair hostParseOpt (toPair hostShowPair (.domain d, p)) = some (.domain d, p) := by
+  apply bencode_roundtrip
+  show hostParseOpt (if d.contains ':' then ['['] ++ d ++ [']'] else d) = _
+  rw [(domainOk_clean d hd).2]
+  unfold hostParseOpt
+  simp only [Bool.false_eq_true, if_false]
+  rw [hostParseC_domain_fixed d hd]
+
+/-- **C17 for the whole modelled host language, no hypothesis about the host parser left**: every
+well-formed host of any kind with any port survives both round trips -/
+theorem concrete_round_trips (h : Host) (p : Nat) (hh : HostOk h) (hp : p < 65536) :
+    parse hostParseOpt (display hostShowUrl (h, p)) = .ok (h, p) ∧
+      ofPair hostParseOpt (toPair hostShowPair (h, p)) = some (h, p) := by
+  cases h with
+  | domain d => exact ⟨domain_display_parse d p hh hp, domain_bencode_roundtrip d p hh⟩
+  | ipv4 n => exact ⟨ipv4_display_parse n p hh hp, ipv4_bencode_roundtrip n p hh⟩
+  | ipv6 segs => exact ⟨ipv6_display_parse segs p hh.1 hh.2 hp, ipv6_bencode_roundtrip segs p hh.1 hh.2⟩
+
+/-- **Whatever text `HOST:PORT` parsing accepts, its value survives both representations**: the
+parser returns only well-formed hosts (`hostParseOpt_ok`), so no hypothesis about the value remains —
+print it and parse the print, or store the pair and read it back: the identical value -/
+theorem accepted_text_round_trips (s : List Char) (h : Host) (p : Nat)
+    (hok : parse hostParseOpt s = .ok (h, p)) :
+    parse hostParseOpt (display hostShowUrl (h, p)) = .ok (h, p) ∧
+      ofPair hostParseOpt (toPair hostShowPair (h, p)) = some (h, p) := by
+  have hh : hostParseOpt (match splitLastColon s with | some (a, _) => a | none => []) = some h ∧ p < 65536 := by
+    unfold parse at hok
+    split at hok
+    · cases hok
+    · rename_i a b heq
+      split at hok
+      · cases hok
+      · split at hok
+        · cases hok
+        · rename_i host hhost
+          split at hok
+          · simp only [Except.ok.injEq, Prod.mk.injEq] at hok
+            refine ⟨?_, by rw [← hok.2]; assumption⟩
+            rw [← hok.1, heq]; exact hhost
+          · cases hok
+  exact concrete_round_trips h p (hostParseOpt_ok _ h hh.1) hh.2
+
+/-- the printed form of an accepted text is a fixed point of parse-then-print -/
+theorem normal_form_fixed (s : List Char) (h : Host) (p : Nat) (hok : parse hostParseOpt s = .ok (h, p)) :
+    (parse hostParseOpt (display hostShowUrl (h, p))).map (display hostShowUrl) =
+      .ok (display hostShowUrl (h, p)) := by
+  rw [(accepted_text_round_trips s h p hok).1]; rfl
 
 /-! ## Non-vacuity: concrete instances through the model's own host parser -/
 example : parse hostParseOpt "imdl.com:12".toList = .ok (.domain "imdl.com".toList, 12) := by decide +kernel
